@@ -348,6 +348,10 @@ func (c *oCache) DoLockedIfNotExists(id string, action func() error) error {
 func (c *oCache) Add(id string, value Object) (err error) {
 	c.mu.Lock()
 	defer c.mu.Unlock()
+	if c.closed {
+		// nothing would ever close a value added once Close has collected the entries
+		return ErrClosed
+	}
 	if _, ok := c.data[id]; ok {
 		return ErrExists
 	}
